@@ -1,398 +1,2 @@
-(** decoder.go, validate.go, hotp.go, totp.go and TimeCounterFunc as translated from the Go source
-    (Generated/Src.v) compute what the hand-written model computes. *)
-From Coq Require Import ZifyN ZifyNat ZifyBool String.
-From OtpV Require Import Prelude Sha Tables GoSem Errors Decoder Derive Otp Suite Src SrcLift SrcEqDerive.
-Open Scope N_scope.
-Ltac Zify.zify_post_hook ::= Z.div_mod_to_equations.
-
-(** ---------- DecodeSecret ---------- *)
-Lemma to_upper_u_ascii s : Forall (fun c => c < 128) s -> to_upper_u s = to_upper s.
-Proof.
-  induction s as [|c t IH]; intros H; [reflexivity|].
-  apply Forall_cons_iff in H. destruct H as [Hc Ht]. specialize (IH Ht).
-  unfold to_upper. cbn [map]. fold (to_upper t). rewrite <- IH.
-  destruct t as [|d t'].
-  - destruct c as [|p]; [reflexivity|]. do 8 (destruct p as [p|p|]; try reflexivity; try lia).
-  - destruct c as [|p]; [reflexivity|]. do 8 (destruct p as [p|p|]; try reflexivity; try lia).
-Qed.
-
-Lemma bad_char_cond c :
-  (((((N.ltb c 65) || (N.ltb 90 c)) && ((N.ltb c 97) || (N.ltb 122 c))) && ((N.ltb c 50) || (N.ltb 55 c))) && (negb (N.eqb c 61)))
-  = negb (in_alphabet_ci c).
-Proof. unfold in_alphabet_ci. lia. Qed.
-
-Lemma in_alphabet_ascii c : in_alphabet_ci c = true -> c < 128.
-Proof. unfold in_alphabet_ci. lia. Qed.
-
-Lemma first_bad_none_all i s : first_bad i s = None -> Forall (fun c => in_alphabet_ci c = true) s.
-Proof.
-  revert i. induction s as [|c t IH]; intros i H; [constructor|].
-  cbn [first_bad] in H. destruct (in_alphabet_ci c) eqn:E; [|discriminate].
-  constructor; [exact E|apply (IH _ H)].
-Qed.
-
-Lemma src_DecodeSecret_loop secret f0 kx : small secret ->
-  forall rest pre fuel, secret = pre ++ rest -> (length rest < fuel)%nat ->
-  Src.DecodeSecret_loop1 fuel f0 secret (Z.of_nat (length pre)) kx =
-  match first_bad (Z.of_nat (length pre)) rest with
-  | Some j => Val ([], Some (EBase32 j))
-  | None => kx (zlen secret)
-  end.
-Proof.
-  intros Hs. induction rest as [|c t IH]; intros pre fuel Hsec Hf.
-  - destruct fuel as [|fuel]; [simpl in Hf; lia|].
-    cbn [Src.DecodeSecret_loop1 first_bad]. rewrite app_nil_r in Hsec. subst pre.
-    unfold zlen. rewrite Z.ltb_irrefl. reflexivity.
-  - destruct fuel as [|fuel]; [simpl in Hf; lia|]. cbn [length] in Hf.
-    cbn [Src.DecodeSecret_loop1 first_bad].
-    assert (Hlen : length secret = (length pre + S (length t))%nat) by (rewrite Hsec, app_length; reflexivity).
-    unfold small, zlen in Hs.
-    destruct (Z.ltb (Z.of_nat (length pre)) (zlen secret)) eqn:E; [|unfold zlen in E; lia].
-    rewrite idx_nat. rewrite Hsec at 1. rewrite nth_error_app2 by lia. rewrite Nat.sub_diag. cbn [nth_error rbind].
-    rewrite bad_char_cond. destruct (in_alphabet_ci c); cbn [negb]; [|reflexivity].
-    rewrite wrap_int64_small by lia.
-    replace (Z.of_nat (length pre) + 1)%Z with (Z.of_nat (length (pre ++ [c]))) by (rewrite app_length; cbn [length]; lia).
-    apply IH; [rewrite <- app_assoc; exact Hsec|lia].
-Qed.
-
-Lemma str_repeat_eq k : (0 <= k)%Z -> str_repeat (s2b "="%string) k = Val (repeat 61 (Z.to_nat k)).
-Proof.
-  intros H. unfold str_repeat. destruct (k <? 0)%Z eqn:E; [lia|]. f_equal.
-  generalize (Z.to_nat k). intros n. induction n as [|n IH]; [reflexivity|].
-  cbn [repeat concat]. rewrite IH. reflexivity.
-Qed.
-
-(** the bytes returned next to an error are not looked at by any caller: results are compared up to them *)
-Definition norm (r : res (bytes * option err)) : res (bytes * option err) :=
-  match r with Val (_, Some e) => Val ([], Some e) | x => x end.
-
-Lemma src_DecodeSecret_eq fuel secret : small secret -> (length secret < fuel)%nat ->
-  norm (Src.DecodeSecret fuel secret) = lift_oc (decode_secret secret).
-Proof.
-  intros Hs Hf. unfold Src.DecodeSecret, decode_secret.
-  assert (Hts : (length (trim_space secret) <= length secret)%nat).
-  { unfold trim_space, trim_right, trim_left. rewrite frev_rev, rev_length.
-    assert (forall f r, (length (trim_right_fuel f r) <= length r)%nat) as HR.
-    { induction f as [|f IH]; intros r; cbn [trim_right_fuel]; [lia|].
-      destruct (space_suffix_len r); [lia|]. etransitivity; [apply IH|]. rewrite skipn_length. lia. }
-    assert (forall f r, (length (trim_left_fuel f r) <= length r)%nat) as HL.
-    { induction f as [|f IH]; intros r; cbn [trim_left_fuel]; [lia|].
-      destruct (space_prefix_len r); [lia|]. etransitivity; [apply IH|]. rewrite skipn_length. lia. }
-    etransitivity; [apply HR|]. rewrite frev_rev, rev_length. apply HL. }
-  set (s := trim_space secret) in *.
-  assert (Hss : small s) by (unfold small, zlen in *; lia).
-  rewrite (src_DecodeSecret_loop s fuel _ Hss s [] fuel eq_refl) by lia.
-  cbn [length Z.of_nat].
-  destruct (first_bad 0 s) as [j|] eqn:Efb; [reflexivity|].
-  apply first_bad_none_all in Efb.
-  unfold zlen.
-  assert (Hrem : Z.rem (Z.of_nat (length s)) 8 = Z.of_nat (Nat.modulo (length s) 8)).
-  { rewrite Z.rem_mod_nonneg by lia. rewrite Nat2Z.inj_mod. reflexivity. }
-  rewrite Hrem.
-  pose proof (Nat.mod_upper_bound (length s) 8 ltac:(lia)) as Hm.
-  set (n := Nat.modulo (length s) 8) in *.
-  assert (Hup : forall x, Forall (fun c => in_alphabet_ci c = true) x -> to_upper_u x = to_upper x).
-  { intros x Hx. apply to_upper_u_ascii. eapply Forall_impl; [|exact Hx]. intros c. apply in_alphabet_ascii. }
-  assert (Hfin : forall x, norm (Val (b32_decode_go x)) =
-          lift_oc (match b32_decode_string x with (bs, None) => Ok bs | (_, Some off) => Err (EBase32 off) end)).
-  { intros x. unfold b32_decode_go. destruct (b32_decode_string x) as [bs [off|]]; reflexivity. }
-  destruct (Nat.eqb_spec n 0) as [En|En].
-  - rewrite En. cbn [Z.of_nat Z.eqb negb]. rewrite Hup by exact Efb. apply Hfin.
-  - destruct (Z.eqb (Z.of_nat n) 0) eqn:Ez; [lia|]. cbn [negb].
-    rewrite wrap_int64_small by lia. rewrite str_repeat_eq by lia. cbn [rbind].
-    replace (Z.to_nat (8 - Z.of_nat n)) with (8 - n)%nat by lia.
-    rewrite Hup.
-    + apply Hfin.
-    + apply Forall_app. split; [exact Efb|]. apply Forall_forall. intros y Hy. apply repeat_spec in Hy. subst y. reflexivity.
-Qed.
-
-Lemma decode_cases fuel secret : small secret -> (length secret < fuel)%nat ->
-  match decode_secret secret with
-  | Ok key => Src.DecodeSecret fuel secret = Val (key, None)
-  | Err e => exists b, Src.DecodeSecret fuel secret = Val (b, Some e)
-  | Panic => Src.DecodeSecret fuel secret = Pnc
-  end.
-Proof.
-  intros Hs Hf. pose proof (src_DecodeSecret_eq fuel secret Hs Hf) as H.
-  destruct (decode_secret secret) as [key|e|]; destruct (Src.DecodeSecret fuel secret) as [[b [e'|]]| |];
-    cbn [norm lift_oc] in H; try discriminate; try (inversion H; subst); eauto.
-Qed.
-
-(** ---------- validate, validateRFC4226 ---------- *)
-Lemma beqb_bytes_eqb a b : beqb a b = bytes_eqb a b.
-Proof. revert b; induction a as [|x a IH]; intros [|y b]; cbn [beqb bytes_eqb]; try reflexivity; rewrite IH; reflexivity. Qed.
-
-Lemma validate_no_err code n d e : fst (Otp.validate code n d) <> Err e.
-Proof.
-  unfold Otp.validate. destruct (negb (zlen code =? n)%Z); [discriminate|].
-  destruct (d tt); [|discriminate|discriminate]. destruct (bytes_eqb code a); discriminate.
-Qed.
-
-Lemma src_validate_eq code n dF d : dF tt = lift_oc (d tt) ->
-  Src.validate code n dF = lift_v (Otp.validate code n d).
-Proof.
-  intros H. unfold Src.validate, Otp.validate, lift_v.
-  destruct (negb (Z.eqb (zlen code) n)); [reflexivity|].
-  rewrite H. destruct (d tt) as [expected|e|]; cbn [lift_oc rbind is_some fst]; [|reflexivity|reflexivity].
-  unfold ct_compare. rewrite beqb_bytes_eqb. destruct (bytes_eqb code expected); reflexivity.
-Qed.
-
-Lemma src_validateRFC4226_eq fuel junk code secret counter digits algo :
-  (11 <= fuel)%nat -> length junk = 8%nat ->
-  Src.validateRFC4226 fuel junk code secret counter digits algo
-  = lift_v (Otp.validate_rfc4226 hmac code secret counter digits algo).
-Proof.
-  intros Hf Hj. unfold Src.validateRFC4226, Otp.validate_rfc4226, Src.Digits_Int. cbn [rbind].
-  apply src_validate_eq. cbn [rbind]. apply src_deriveRFC4226_eq; assumption.
-Qed.
-
-(** ---------- GenerateHOTP ---------- *)
-Lemma default_hotp_eq : Src.g_DefaultHOTPParam = Some default_hotp_param.
-Proof. reflexivity. Qed.
-Lemma default_totp_eq : Src.g_DefaultTOTPParam = Some default_totp_param.
-Proof. reflexivity. Qed.
-
-Lemma src_GenerateHOTP_eq fuel junk secret counter p :
-  (11 <= fuel)%nat -> (length secret < fuel)%nat -> small secret -> length junk = 8%nat ->
-  Src.GenerateHOTP fuel junk secret counter p = lift_oc (Otp.generate_hotp secret counter p).
-Proof.
-  intros Hf Hfs Hs Hj. unfold Src.GenerateHOTP, Otp.generate_hotp, Otp.generate_hotp_with.
-  rewrite default_hotp_eq.
-  assert (Hk : forall q, (do t1 <- Src.DecodeSecret fuel secret;
-      let '(secretBuf, err_) := t1 in
-      if is_some err_ then Val ([], err_)
-      else do t2 <- deref (Some q); do t3 <- Src.Digits_Int (p_digits t2); do t4 <- deref (Some q);
-           Src.deriveRFC4226 fuel junk secretBuf counter t3 (p_alg t4))
-    = lift_oc (obind (decode_secret secret) (fun key => derive_rfc4226_with hmac key counter (Z.of_N (p_digits q)) (p_alg q)))).
-  { intros q. pose proof (decode_cases fuel secret Hs Hfs) as Hd.
-    destruct (decode_secret secret) as [key|e|].
-    - rewrite Hd. cbn [rbind is_some deref obind]. unfold Src.Digits_Int. cbn [rbind].
-      apply src_deriveRFC4226_eq; assumption.
-    - destruct Hd as [b Hd]. rewrite Hd. reflexivity.
-    - rewrite Hd. reflexivity. }
-  destruct p as [q|]; cbn [is_some negb deref rbind]; apply Hk.
-Qed.
-
-(** ---------- ValidateHOTP ---------- *)
-Definition zseq (i : Z) (n : nat) : list Z := map (fun k => (i + Z.of_nat k)%Z) (seq 0 n).
-Lemma zseq_S i n : zseq i (S n) = i :: zseq (i + 1) n.
-Proof.
-  unfold zseq. cbn [seq map]. f_equal; [lia|]. rewrite <- seq_shift, map_map. apply map_ext. intros k. lia.
-Qed.
-Lemma offsets_zseq sk : offsets sk = zseq (- Z.of_N sk) (2 * N.to_nat sk + 1).
-Proof. unfold offsets, zseq. apply map_ext. intros k. lia. Qed.
-
-Lemma usub64_sub64 a b : usub 64 a b = sub64 a b.
-Proof. reflexivity. Qed.
-
-Definition fail_code : res (bool * option err) := Val (false, Some (ESent ErrInvalidCode)).
-
-Lemma src_ValidateHOTP_loop junk code key counter p fuel0 :
-  (11 <= fuel0)%nat -> length junk = 8%nat ->
-  forall n i fuel cost skew, (n < fuel)%nat -> (i + Z.of_nat n = skew + 1)%Z -> (-100 <= i)%Z -> (skew <= 100)%Z ->
-  Src.ValidateHOTP_loop1 fuel fuel0 junk skew counter code key (Some p) i (fun _ => fail_code)
-  = lift_v (hotp_loop hmac (zseq i n) code key counter (p_digits p) (p_alg p) cost).
-Proof.
-  intros Hf0 Hj. induction n as [|n IH]; intros i fuel cost skew Hf Hi Hlo Hhi.
-  - destruct fuel as [|fuel]; [lia|]. cbn [Src.ValidateHOTP_loop1 zseq seq map hotp_loop].
-    destruct (Z.leb i skew) eqn:E; [lia|]. reflexivity.
-  - destruct fuel as [|fuel]; [lia|]. rewrite zseq_S. cbn [Src.ValidateHOTP_loop1 hotp_loop].
-    destruct (Z.leb i skew) eqn:E; [|lia].
-    rewrite !wrap_int64_small by lia. cbn [deref rbind].
-    change (Z.ltb i 0) with (i <? 0)%Z.
-    change (N.ltb counter (of_int64 (- i))) with (counter <? of_int64 (- i)).
-    assert (Hrec : forall cost', Src.ValidateHOTP_loop1 fuel fuel0 junk skew counter code key (Some p) (i + 1) (fun _ => fail_code)
-                   = lift_v (hotp_loop hmac (zseq (i + 1) n) code key counter (p_digits p) (p_alg p) cost')).
-    { intros cost'. apply IH; lia. }
-    assert (Hstep : forall c,
-      (do t6 <- Src.validateRFC4226 fuel0 junk code key c (p_digits p) (p_alg p);
-       let '(valid, err_2) := t6 in
-       if negb (is_some err_2) && valid then Val (true, None)
-       else Src.ValidateHOTP_loop1 fuel fuel0 junk skew counter code key (Some p) (i + 1) (fun _ => fail_code))
-      = lift_v (match validate_rfc4226 hmac code key c (p_digits p) (p_alg p) with
-                | (Ok (true, None), k) => (Ok (true, None), (cost + k)%nat)
-                | (Ok _, k) => hotp_loop hmac (zseq (i + 1) n) code key counter (p_digits p) (p_alg p) (cost + k)
-                | (o, k) => (o, (cost + k)%nat)
-                end)).
-    { intros c. rewrite src_validateRFC4226_eq by assumption.
-      pose proof (validate_no_err code (Z.of_N (p_digits p)) (fun _ => derive_rfc4226_with hmac key c (Z.of_N (p_digits p)) (p_alg p))) as Hne.
-      unfold validate_rfc4226 in *.
-      destruct (Otp.validate code (Z.of_N (p_digits p)) (fun _ => derive_rfc4226_with hmac key c (Z.of_N (p_digits p)) (p_alg p))) as [o k].
-      cbn [fst] in Hne. unfold lift_v at 1. cbn [fst].
-      destruct o as [[b oe]|e|]; [|exfalso; apply (Hne e); reflexivity|reflexivity].
-      cbn [rbind]. destruct b, oe as [e|]; cbn [is_some negb andb]; try reflexivity; apply Hrec. }
-    destruct (i <? 0)%Z eqn:Eneg.
-    + destruct (counter <? of_int64 (- i)) eqn:Eu; cbn [andb].
-      * apply Hrec.
-      * rewrite usub64_sub64. apply Hstep.
-    + cbn [andb]. apply Hstep.
-Qed.
-
-Lemma src_ValidateHOTP_eq fuel junk secret code counter p :
-  (22 <= fuel)%nat -> (length secret < fuel)%nat -> small secret -> length junk = 8%nat ->
-  Src.ValidateHOTP fuel junk secret code counter p = lift_v (Otp.validate_hotp secret code counter p).
-Proof.
-  intros Hf Hfs Hs Hj. unfold Src.ValidateHOTP, Otp.validate_hotp, Otp.validate_hotp_with.
-  rewrite default_hotp_eq.
-  assert (Hk : forall q,
-    (do t1 <- deref (Some q);
-     if N.ltb 10 (p_skew t1) then Val (false, Some (ESent ErrInvalidSkew))
-     else do t2 <- deref (Some q);
-          let skew_ := to_int64 (p_skew t2) in
-          do t3 <- Src.DecodeSecret fuel secret;
-          let '(secretBuf, err_) := t3 in
-          if is_some err_ then Val (false, err_)
-          else let i := wrap_int64 (Z.opp skew_) in
-               Src.ValidateHOTP_loop1 fuel fuel junk skew_ counter code secretBuf (Some q) i
-                 (fun _ : Z => Val (false, Some (ESent ErrInvalidCode))))
-    = lift_v (if skew_refused hotp_max_skew (p_skew q) then (Ok (false, Some (ESent ErrInvalidSkew)), O)
-              else match decode_secret secret with
-                   | Panic => (Panic, O)
-                   | Err e => (Ok (false, Some e), O)
-                   | Ok key => hotp_loop hmac (offsets (p_skew q)) code key counter (p_digits q) (p_alg q) O
-                   end)).
-  { intros q. cbn [deref rbind]. unfold skew_refused, hotp_max_skew.
-    change (N.ltb 10 (p_skew q)) with (10 <? p_skew q).
-    destruct (10 <? p_skew q) eqn:Esk; [reflexivity|].
-    assert (Hsk : to_int64 (p_skew q) = Z.of_N (p_skew q)).
-    { unfold to_int64, two63. destruct (p_skew q <? 9223372036854775808) eqn:E; [reflexivity|lia]. }
-    rewrite Hsk.
-    pose proof (decode_cases fuel secret Hs Hfs) as Hd.
-    destruct (decode_secret secret) as [key|e|].
-    - rewrite Hd. cbn [rbind is_some].
-      rewrite wrap_int64_small by lia. rewrite offsets_zseq.
-      apply (src_ValidateHOTP_loop junk code key counter q fuel); lia.
-    - destruct Hd as [b Hd]. rewrite Hd. reflexivity.
-    - rewrite Hd. reflexivity. }
-  destruct p as [q|]; cbn [is_some negb]; [apply Hk|].
-  cbn [deref rbind]. apply (Hk default_hotp_param).
-Qed.
-
-(** ---------- TimeCounterFunc, GenerateTOTP, ValidateTOTP ---------- *)
-Lemma src_TimeCounterFunc_eq t period : Src.TimeCounterFunc t period = lift_p (Otp.time_counter t period).
-Proof. unfold Src.TimeCounterFunc, Otp.time_counter, udiv. destruct (period =? 0); reflexivity. Qed.
-
-Lemma src_GenerateTOTP_eq fuel junk secret t p :
-  (11 <= fuel)%nat -> (length secret < fuel)%nat -> small secret -> length junk = 8%nat ->
-  Src.GenerateTOTP fuel junk secret t p = lift_oc (Otp.generate_totp secret t p).
-Proof.
-  intros Hf Hfs Hs Hj. unfold Src.GenerateTOTP, Otp.generate_totp, Otp.generate_totp_with.
-  rewrite default_totp_eq.
-  assert (Hk : forall q,
-    (do t1 <- Src.DecodeSecret fuel secret;
-     let '(secretBuf, err_) := t1 in
-     if is_some err_ then Val ([], err_)
-     else do t2 <- deref (Some q);
-          let period := p_period t2 in
-          let kj2 := fun period : N =>
-            do t3 <- Src.TimeCounterFunc t period; do t4 <- deref (Some q); do t5 <- Src.Digits_Int (p_digits t4);
-            do t6 <- deref (Some q); Src.deriveRFC4226 fuel junk secretBuf t3 t5 (p_alg t6) in
-          if N.eqb period 0 then let period := 30 in kj2 period else kj2 period)
-    = lift_oc (obind (decode_secret secret) (fun key =>
-        obind (time_counter t (eff_period totp_gen_zero_period (p_period q))) (fun c =>
-          derive_rfc4226_with hmac key c (Z.of_N (p_digits q)) (p_alg q))))).
-  { intros q. pose proof (decode_cases fuel secret Hs Hfs) as Hd.
-    destruct (decode_secret secret) as [key|e|].
-    - rewrite Hd. cbn [rbind is_some deref obind]. unfold eff_period, totp_gen_zero_period.
-      change (N.eqb (p_period q) 0) with (p_period q =? 0).
-      assert (Hc : forall pe, (do t3 <- Src.TimeCounterFunc t pe; do t4 <- Val q; do t5 <- Src.Digits_Int (p_digits t4);
-                    do t6 <- Val q; Src.deriveRFC4226 fuel junk key t3 t5 (p_alg t6))
-                 = lift_oc (obind (time_counter t pe) (fun c => derive_rfc4226_with hmac key c (Z.of_N (p_digits q)) (p_alg q)))).
-      { intros pe. rewrite src_TimeCounterFunc_eq. unfold time_counter. destruct (pe =? 0); [reflexivity|].
-        cbn [lift_p rbind obind]. unfold Src.Digits_Int. cbn [rbind]. apply src_deriveRFC4226_eq; assumption. }
-      destruct (p_period q =? 0); apply Hc.
-    - destruct Hd as [b Hd]. rewrite Hd. reflexivity.
-    - rewrite Hd. reflexivity. }
-  destruct p as [q|]; cbn [is_some negb deref rbind]; apply Hk.
-Qed.
-
-Lemma src_ValidateTOTP_loop junk code key counter p fuel0 :
-  (11 <= fuel0)%nat -> length junk = 8%nat ->
-  forall n i fuel cost skew, (n < fuel)%nat -> (i + Z.of_nat n = Z.of_N skew + 1)%Z -> (-100 <= i)%Z -> (skew <= 100) ->
-  Src.ValidateTOTP_loop1 fuel fuel0 junk skew code key counter (Some p) i (fun _ => fail_code)
-  = lift_v (totp_loop hmac (zseq i n) code key counter (p_digits p) (p_alg p) cost).
-Proof.
-  intros Hf0 Hj. induction n as [|n IH]; intros i fuel cost skew Hf Hi Hlo Hhi.
-  - destruct fuel as [|fuel]; [lia|]. cbn [Src.ValidateTOTP_loop1 zseq seq map totp_loop].
-    assert (Hsk : to_int64 skew = Z.of_N skew).
-    { unfold to_int64, two63. destruct (skew <? 9223372036854775808) eqn:E; [reflexivity|lia]. }
-    rewrite Hsk. destruct (Z.leb i (Z.of_N skew)) eqn:E; [lia|]. reflexivity.
-  - destruct fuel as [|fuel]; [lia|]. rewrite zseq_S. cbn [Src.ValidateTOTP_loop1 totp_loop].
-    assert (Hsk : to_int64 skew = Z.of_N skew).
-    { unfold to_int64, two63. destruct (skew <? 9223372036854775808) eqn:E; [reflexivity|lia]. }
-    rewrite Hsk. destruct (Z.leb i (Z.of_N skew)) eqn:E; [|lia].
-    rewrite !wrap_int64_small by lia. cbn [deref rbind].
-    rewrite src_validateRFC4226_eq by assumption.
-    assert (Hrec : forall cost', Src.ValidateTOTP_loop1 fuel fuel0 junk skew code key counter (Some p) (i + 1) (fun _ => fail_code)
-                   = lift_v (totp_loop hmac (zseq (i + 1) n) code key counter (p_digits p) (p_alg p) cost')).
-    { intros cost'. apply IH; lia. }
-    pose proof (validate_no_err code (Z.of_N (p_digits p)) (fun _ => derive_rfc4226_with hmac key (wrap64 (counter + of_int64 i)) (Z.of_N (p_digits p)) (p_alg p))) as Hne.
-    unfold validate_rfc4226 in *.
-    change (N.add counter (of_int64 i)) with (counter + of_int64 i).
-    destruct (Otp.validate code (Z.of_N (p_digits p)) (fun _ => derive_rfc4226_with hmac key (wrap64 (counter + of_int64 i)) (Z.of_N (p_digits p)) (p_alg p))) as [o k].
-    cbn [fst] in Hne. unfold lift_v at 1. cbn [fst].
-    destruct o as [[b oe]|e|]; [|exfalso; apply (Hne e); reflexivity|reflexivity].
-    cbn [rbind]. destruct b, oe as [e|]; cbn [is_some negb andb]; try reflexivity; apply Hrec.
-Qed.
-
-Lemma src_ValidateTOTP_eq fuel junk secret code t p :
-  (22 <= fuel)%nat -> (length secret < fuel)%nat -> small secret -> length junk = 8%nat ->
-  Src.ValidateTOTP fuel junk secret code t p = lift_v (Otp.validate_totp secret code t p).
-Proof.
-  intros Hf Hfs Hs Hj. unfold Src.ValidateTOTP, Otp.validate_totp, Otp.validate_totp_with.
-  rewrite default_totp_eq.
-  assert (Hk : forall q,
-    (do t1 <- deref (Some q);
-     if N.ltb 10 (p_skew t1) then Val (false, Some (ESent ErrInvalidSkew))
-     else do t2 <- Src.DecodeSecret fuel secret;
-          let '(secretBuf, err_) := t2 in
-          if is_some err_ then Val (false, err_)
-          else do t3 <- deref (Some q);
-               let period := p_period t3 in
-               let kj2 := fun period : N =>
-                 do t4 <- deref (Some q);
-                 let skew_ := p_skew t4 in
-                 do t5 <- Src.TimeCounterFunc t period;
-                 let counter := t5 in
-                 let i := wrap_int64 (Z.opp (to_int64 skew_)) in
-                 Src.ValidateTOTP_loop1 fuel fuel junk skew_ code secretBuf counter (Some q) i
-                   (fun _ : Z => Val (false, Some (ESent ErrInvalidCode))) in
-               if N.eqb period 0 then let period := 30 in kj2 period else kj2 period)
-    = lift_v (if skew_refused totp_max_skew (p_skew q) then (Ok (false, Some (ESent ErrInvalidSkew)), O)
-              else match decode_secret secret with
-                   | Panic => (Panic, O)
-                   | Err e => (Ok (false, Some e), O)
-                   | Ok key =>
-                     match time_counter t (eff_period totp_val_zero_period (p_period q)) with
-                     | Ok counter => totp_loop hmac (offsets (p_skew q)) code key counter (p_digits q) (p_alg q) O
-                     | Err e => (Ok (false, Some e), O)
-                     | Panic => (Panic, O)
-                     end
-                   end)).
-  { intros q. cbn [deref rbind]. unfold skew_refused, totp_max_skew.
-    change (N.ltb 10 (p_skew q)) with (10 <? p_skew q).
-    destruct (10 <? p_skew q) eqn:Esk; [reflexivity|].
-    assert (Hsk : to_int64 (p_skew q) = Z.of_N (p_skew q)).
-    { unfold to_int64, two63. destruct (p_skew q <? 9223372036854775808) eqn:E; [reflexivity|lia]. }
-    pose proof (decode_cases fuel secret Hs Hfs) as Hd.
-    destruct (decode_secret secret) as [key|e|].
-    - rewrite Hd. cbn [rbind is_some]. unfold eff_period, totp_val_zero_period.
-      change (N.eqb (p_period q) 0) with (p_period q =? 0).
-      assert (Hc : forall pe,
-        (do t5 <- Src.TimeCounterFunc t pe;
-         Src.ValidateTOTP_loop1 fuel fuel junk (p_skew q) code key t5 (Some q) (wrap_int64 (- to_int64 (p_skew q)))
-           (fun _ : Z => Val (false, Some (ESent ErrInvalidCode))))
-        = lift_v (match time_counter t pe with
-                  | Ok counter => totp_loop hmac (offsets (p_skew q)) code key counter (p_digits q) (p_alg q) O
-                  | Err e => (Ok (false, Some e), O)
-                  | Panic => (Panic, O)
-                  end)).
-      { intros pe. rewrite src_TimeCounterFunc_eq. unfold time_counter. destruct (pe =? 0); [reflexivity|].
-        cbn [lift_p rbind]. rewrite Hsk. rewrite wrap_int64_small by lia. rewrite offsets_zseq.
-        apply (src_ValidateTOTP_loop junk code key (of_int64 t / pe) q fuel); lia. }
-      destruct (p_period q =? 0); apply Hc.
-    - destruct Hd as [b Hd]. rewrite Hd. reflexivity.
-    - rewrite Hd. reflexivity. }
-  destruct p as [q|]; cbn [is_some negb]; [apply Hk|].
-  cbn [deref rbind]. apply (Hk default_totp_param).
-Qed.
+(** hotp.go, totp.go, validate.go as translated from the Go source: the three files of equivalences together. *)
+From OtpV Require Export SrcEqValidate SrcEqHotp SrcEqTotp.
